@@ -123,6 +123,36 @@ func parseFloat64(buf []byte) (f float64) {
 	return
 }
 
+// parseGPSCoordinate parses an XMP GPSCoordinate, "DDD,MM,SSk" or "DDD,MM.mmk" with k one of
+// N, S, E, W, into signed decimal degrees (south and west are negative). A plain decimal number
+// is accepted as before.
+func parseGPSCoordinate(buf []byte) float64 {
+	if len(buf) < 2 {
+		return parseFloat64(buf)
+	}
+	ref := buf[len(buf)-1]
+	if ref != 'N' && ref != 'S' && ref != 'E' && ref != 'W' {
+		return parseFloat64(buf)
+	}
+	buf = buf[:len(buf)-1]
+	i := bytes.IndexByte(buf, ',')
+	if i < 0 {
+		return 0
+	}
+	deg, rest := parseFloat64(buf[:i]), buf[i+1:]
+	min, sec := 0.0, 0.0
+	if j := bytes.IndexByte(rest, ','); j >= 0 {
+		min, sec = parseFloat64(rest[:j]), parseFloat64(rest[j+1:])
+	} else {
+		min = parseFloat64(rest)
+	}
+	v := deg + min/60 + sec/3600
+	if ref == 'S' || ref == 'W' {
+		return -v
+	}
+	return v
+}
+
 // parseString parses a []byte and returns a string
 func parseString(buf []byte) string {
 	return string(buf)
